@@ -27,6 +27,7 @@ struct Shared {
     bad: StdMutex<Vec<(String, String)>>,
 }
 
+static PARKER_STACK: AtomicUsize = AtomicUsize::new(0);
 pub fn build(ctl: &'static Ctrl, params: &Value) -> Instance {
     let parker_co = params["parker_co"].as_bool().unwrap_or(true);
     let kind = params["kind"].as_str().unwrap_or("blocker").to_string();
@@ -52,6 +53,8 @@ pub fn build(ctl: &'static Ctrl, params: &Value) -> Instance {
     actors.push(actor("p", parker_co, move || {
         if parker_co {
             *sh2.handle.lock().unwrap() = Some(may::coroutine::current());
+            let probe = 0u8;
+            PARKER_STACK.store(&probe as *const u8 as usize, SeqCst);
         }
         for (i, op) in rounds.iter().enumerate() {
             let b = Blocker::current();
@@ -98,6 +101,7 @@ pub fn build(ctl: &'static Ctrl, params: &Value) -> Instance {
             if res.contains("Canceled") && sh2.cancel_issued.load(SeqCst) == 0 {
                 sh2.bad.lock().unwrap().push(("false_cancel".into(), format!("round {i}: park returned Canceled but nobody cancelled the parker")));
             }
+            crate::run::bump(&format!("parker_round_{op}_{res}"));
             sh2.rounds.lock().unwrap()[i].returned = Some(res);
         }
     }));
@@ -124,6 +128,51 @@ pub fn build(ctl: &'static Ctrl, params: &Value) -> Instance {
                     }
                 }
                 sh3.rounds.lock().unwrap()[i].unparks_done += 1;
+            }
+        }));
+    }
+    // C15: once the parker has finished, an innocent coroutine gets its pooled stack (pool capacity 1), really
+    // blocks in a plain park and is woken by a plain unpark: it must see Ok, whatever the parker left behind
+    let innocent = params["innocent"].as_bool().unwrap_or(false);
+    if innocent {
+        let sh3 = sh.clone();
+        actors.push(actor("d", false, move || {
+            // (held at this point by a `hold` until the parker is done)
+            may::verif::pt("pk.innocent", 0, 0, 0);
+            std::thread::sleep(Duration::from_micros(300));
+            let slot: Arc<StdMutex<Option<Arc<Blocker>>>> = Arc::new(StdMutex::new(None));
+            let slot2 = slot.clone();
+            let res: Arc<StdMutex<Option<String>>> = Arc::new(StdMutex::new(None));
+            let res2 = res.clone();
+            let h = unsafe {
+                may::coroutine::spawn(move || {
+                    let probe = 0u8;
+                    let mine = &probe as *const u8 as usize;
+                    let theirs = PARKER_STACK.load(SeqCst);
+                    crate::run::bump(if theirs != 0 && mine.abs_diff(theirs) < 0x8000 { "stack_reused" } else { "stack_not_reused" });
+                    // first a blocking socket read (the io path looks at the result slot before anything else) ...
+                    let io = crate::scen::reuse::innocent_io_probe();
+                    // ... then a plain park
+                    let b = Blocker::current();
+                    *slot2.lock().unwrap() = Some(b.clone());
+                    let r = b.park(None);
+                    *res2.lock().unwrap() = Some(if io == "Ok" { format!("{r:?}") } else { format!("socket read: {io}") });
+                })
+            };
+            // let it really block first: a token set before the park would make it return without yielding
+            let t0 = std::time::Instant::now();
+            while slot.lock().unwrap().is_none() && t0.elapsed() < Duration::from_millis(200) {
+                std::thread::yield_now();
+            }
+            std::thread::sleep(Duration::from_millis(2));
+            if let Some(b) = slot.lock().unwrap().clone() {
+                b.unpark();
+            }
+            let _ = h.join();
+            let r = res.lock().unwrap().clone();
+            crate::run::bump(&format!("innocent_{}", r.as_deref().unwrap_or("none")));
+            if r.as_deref() != Some("Ok(())") {
+                sh3.bad.lock().unwrap().push(("stale_result_inherited".into(), format!("an innocent coroutine on the parker's pooled stack got {r:?} from a plain park woken by a plain unpark")));
             }
         }));
     }
@@ -155,6 +204,11 @@ pub fn build(ctl: &'static Ctrl, params: &Value) -> Instance {
         vclock: timed,
         offer_tick: true,
         timer_actor: Some("tm".to_string()),
+        holds: if innocent {
+            vec![Hold { actor: "d".into(), site: "pk.innocent".into(), nth: 1, until_actor: "p".into(), until_site: "never".into(), until_n: 1 }]
+        } else {
+            vec![]
+        },
         ..Default::default()
     };
     let sh4 = sh.clone();
